@@ -306,7 +306,8 @@ def light(buf, start=0, end=None):
                         except Malformed:
                             ok = False
                     if not ok:
-                        raise Malformed("paged-results control without a well-formed value")
+                        # whether a receiver rejects this (the library does) or tolerates it is not stated anywhere
+                        out["dubious"] = "paged-results control without a well-formed value"
     if kind in ("BindResponse", "SearchResultDone", "ExtendedResponse"):
         kids = op.children
         if kids and (kids[0].cls, kids[0].num) == (UNIVERSAL, 10):
